@@ -193,12 +193,17 @@ impl PathParser {
     }
 
     fn process_instruction(&mut self) -> Result<()> {
+        let mut new_subpath = false;
         if self.command.is_none() || self.tokens.at_command()? {
             // "The command letter can be eliminated on subsequent commands if the same
             // command is used multiple times in a row (e.g., you can drop the second
             // "L" in "M 100 200 L 200 100 L -100 -200" and use "M 100 200 L 200 100
             // -100 -200" instead)."
-            self.command = Some(self.tokens.read_command()?);
+            let command = self.tokens.read_command()?;
+            // a written moveto starts a new subpath, which is where a later closepath
+            // returns to (further coordinate pairs after it are implicit linetos)
+            new_subpath = command == 'M' || command == 'm';
+            self.command = Some(command);
         }
 
         match self.command.expect("Command should be already set") {
@@ -206,11 +211,17 @@ impl PathParser {
                 // "(x y)+"
                 let xy = self.tokens.read_coord()?;
                 self.update_position(xy);
+                if new_subpath {
+                    self.start_pos = self.position;
+                }
             }
             'm' | 'l' | 't' => {
                 let (dx, dy) = self.tokens.read_coord()?;
                 let (cpx, cpy) = self.position.unwrap_or((0., 0.));
                 self.update_position((cpx + dx, cpy + dy));
+                if new_subpath {
+                    self.start_pos = self.position;
+                }
             }
             'H' => {
                 let new_x = self.tokens.read_number()?;
